@@ -86,3 +86,49 @@ def concrete_float(values, name, code='d'):
     n = 4 if code == 'f' else 8
     b = bytes(int(values.get('%s[%d]' % (name, i), 0)) for i in range(n))
     return struct.unpack('>' + code, b)[0]
+
+
+# ---- exact-rational layer -------------------------------------------------------
+class SymRat(object):
+    """the float produced by int / int (true division), kept as the exact rational
+    num/den.  Comparisons against integers and other rationals are decided on the
+    exact values; this agrees with IEEE round-to-nearest whenever every value that
+    is compared is an integer (or k/den) of magnitude < 2^44 -- see the rounding
+    lemma listed in the harness assumptions."""
+    __slots__ = ('num', 'den')
+
+    def __init__(s, num, den):
+        s.num = num
+        s.den = den
+
+    def _pair(s, o):
+        if isinstance(o, SymRat):
+            return s.num * o.den, o.num * s.den
+        if isinstance(o, (int, SymInt)):
+            return s.num, o * s.den
+        if isinstance(o, float) and o == int(o):
+            return s.num, int(o) * s.den
+        raise Inconclusive('SymRat compared with %s' % type(o).__name__)
+
+    def __lt__(s, o): a, b = s._pair(o); return a < b
+    def __le__(s, o): a, b = s._pair(o); return a <= b
+    def __gt__(s, o): a, b = s._pair(o); return a > b
+    def __ge__(s, o): a, b = s._pair(o); return a >= b
+    def __eq__(s, o): a, b = s._pair(o); return a == b
+    def __ne__(s, o): a, b = s._pair(o); return a != b
+    __hash__ = None
+
+    def __mul__(s, k):
+        if isinstance(k, (int, SymInt)):
+            return SymRat(s.num * k, s.den)
+        raise Inconclusive('SymRat arithmetic')
+    __rmul__ = __mul__
+
+    def __repr__(s):
+        return 'SymRat(/%d)' % s.den
+
+
+def int_truediv(a, b):       # noqa: F811  (replaces the placeholder above)
+    if isinstance(b, int) and not isinstance(b, bool) and b > 0 and isinstance(a, (int, SymInt)):
+        return SymRat(a, b)
+    raise Inconclusive('true division on a symbolic int by a non-constant is not encoded')
